@@ -14,6 +14,16 @@ static Vec sym_vec(const std::string &tag, unsigned n, long lo, long hi)
         v.push_back(sym_integer(tag + std::to_string(i), lo, hi)->as_integer_class());
     return v;
 }
+// second operand: symbolic, or (param enum2, quick tier) one path per value so that products stay linear in the symbolic operand
+static Vec second_vec(const std::string &tag, unsigned n, long lo, long hi)
+{
+    if (!verif_param("enum2", 0))
+        return sym_vec(tag, n, lo, hi);
+    Vec v;
+    for (unsigned i = 0; i < n; i++)
+        v.push_back(integer_class(lo + (long)verif_choice((tag + std::to_string(i)).c_str(), hi - lo + 1)));
+    return v;
+}
 static Vec conv(const Vec &a, const Vec &b)
 {
     Vec r(a.size() + b.size() - 1, integer_class(0));
@@ -80,7 +90,7 @@ extern "C" void harness_c21_pow_div()
 {
     RCP<const Symbol> x = symbol("x");
     long B = verif_param("B", 5);
-    Vec a = sym_vec("a", 2, -B, B), b = sym_vec("b", 2, -B, B);
+    Vec a = sym_vec("a", 2, -B, B), b = second_vec("b", 2, -B, B);
     RCP<const UIntPoly> p = UIntPoly::from_vec(x, a), q = UIntPoly::from_vec(x, b);
     unsigned k = (unsigned)verif_choice("k", verif_param("kmax", 4));
     Vec e = {integer_class(1)};
@@ -103,7 +113,8 @@ extern "C" void harness_c21_divides()
 {
     RCP<const Symbol> x = symbol("x");
     long B = verif_param("B", 2);
-    Vec d = sym_vec("d", 3, -B, B), m = sym_vec("m", 2, -B, B);
+    Vec d = sym_vec("d", 2, -B, B), m = second_vec("m", 2, -B, B);
+    d.push_back(second_vec("dlead", 1, -B, B)[0]); // leading coefficient (the divisor of every quotient step)
     verif_assume(d[2] != 0);
     RCP<const UIntPoly> dp = UIntPoly::from_vec(x, d), mp = UIntPoly::from_vec(x, m);
     RCP<const UIntPoly> prod = mul_upoly(*dp, *mp), quo;
@@ -131,7 +142,7 @@ extern "C" void harness_c21_convert()
     RCP<const UIntPoly> back = from_basic<UIntPoly>(s, x);
     verif_assert(eq(*back, *p), "from_basic(as_symbolic(p)) == p");
     // (c0 + c1 x)*(d + x) given as an unexpanded expression converts to its expansion
-    integer_class d = sym_integer("d", -B, B)->as_integer_class();
+    integer_class d = second_vec("d", 1, -B, B)[0];
     RCP<const Basic> prod = mul(add(integer(a[0]), mul(integer(a[1]), x)), add(integer(d), x));
     RCP<const UIntPoly> pp = from_basic<UIntPoly>(prod, x);
     Vec e = conv({a[0], a[1]}, {d, integer_class(1)});
